@@ -1850,24 +1850,13 @@ public:
 	  
 	  GrOps::apply_delta(meet_g, delta);
 	  
-	  // Recover updated LBs and UBs.
-	  if (crab_domain_params_man::get().zones_close_bounds_inline()) {
-	    Wt_min min_op;
-	    for (auto e : delta) {
-	      if (meet_g.elem(0, e.first.first))
-		meet_g.update_edge(0,
-				   meet_g.edge_val(0, e.first.first) + e.second,
-				   e.first.second, min_op);
-	      if (meet_g.elem(e.first.second, 0))
-		meet_g.update_edge(e.first.first,
-				   meet_g.edge_val(e.first.second, 0) + e.second,
-				   0, min_op);
-	    }
-	  } else {
-	    delta.clear();
-	    GrOps::close_after_assign(meet_g, meet_pi, 0, delta);
-	    GrOps::apply_delta(meet_g, delta);
-	  }
+	  // Recover updated LBs and UBs. A bound of one operand can be
+	  // tightened through an edge that already exists in the other
+	  // one, so it is not enough to look at the new edges (as
+	  // close_bounds_inline does): recompute them from the zero vertex.
+	  delta.clear();
+	  GrOps::close_after_assign(meet_g, meet_pi, 0, delta);
+	  GrOps::apply_delta(meet_g, delta);
 	}
       
 	check_potential(meet_g, meet_pi, __LINE__);
@@ -1987,24 +1976,13 @@ public:
 	  
 	  GrOps::apply_delta(meet_g, delta);
 	  
-	  // Recover updated LBs and UBs.
-	  if (crab_domain_params_man::get().zones_close_bounds_inline()) {
-	    Wt_min min_op;
-	    for (auto e : delta) {
-	      if (meet_g.elem(0, e.first.first))
-		meet_g.update_edge(0,
-				   meet_g.edge_val(0, e.first.first) + e.second,
-                                 e.first.second, min_op);
-	      if (meet_g.elem(e.first.second, 0))
-		meet_g.update_edge(e.first.first,
-				   meet_g.edge_val(e.first.second, 0) + e.second,
-				   0, min_op);
-	    }
-	  } else {
-	    delta.clear();
-	    GrOps::close_after_assign(meet_g, meet_pi, 0, delta);
-	    GrOps::apply_delta(meet_g, delta);
-	  }
+	  // Recover updated LBs and UBs. A bound of one operand can be
+	  // tightened through an edge that already exists in the other
+	  // one, so it is not enough to look at the new edges (as
+	  // close_bounds_inline does): recompute them from the zero vertex.
+	  delta.clear();
+	  GrOps::close_after_assign(meet_g, meet_pi, 0, delta);
+	  GrOps::apply_delta(meet_g, delta);
 	}
 	check_potential(meet_g, meet_pi, __LINE__);
 	DBM_t res(std::move(meet_verts), std::move(meet_rev), std::move(meet_g),
